@@ -49,8 +49,10 @@
 package main
 
 import (
+	"crypto/sha256"
 	"fmt"
 	"io"
+	"os"
 	"sort"
 	"strings"
 
@@ -179,8 +181,8 @@ type world struct {
 	lsys  linking.LinkSystem
 	lsys2 linking.LinkSystem // a second link system on the same registry, storage and trust flag
 	lsysG linking.LinkSystem // a DefaultLinkSystem (global registry) on the same storage
-	mem  *memstore.Store
-	cid  *cidlink.Memory
+	mem   *memstore.Store
+	cid   *cidlink.Memory
 }
 
 func newWorld(kind string, trusted bool, reg *lib.LkReg) *world {
@@ -252,7 +254,7 @@ func loadObs(status string, n datamodel.Node, raw []byte, rawReturned bool) stri
 		ns = lib.LkDump(n)
 	}
 	if rawReturned {
-		rs = "x" + lib.LkHex(string(raw))
+		rs = "x" + lib.LkHexBytes(raw)
 	}
 	return status + "/" + ns + "/" + rs
 }
@@ -266,6 +268,7 @@ type kept struct {
 	nodeWas string
 	rawWas  string
 	done    bool // a change was already reported
+	big     bool
 }
 
 type runner struct {
@@ -279,6 +282,15 @@ type runner struct {
 	cur     int // slot of the operation in progress
 }
 
+// rawPrint: the slice itself when small, its digest when large (no multi-MiB copies)
+func rawPrint(b []byte) string {
+	if len(b) <= 1<<14 {
+		return string(b)
+	}
+	d := sha256.Sum256(b)
+	return string(d[:])
+}
+
 // retain keeps what a load handed out, with its dump at that moment.
 func (rn *runner) retain(n datamodel.Node, raw []byte, hasRaw bool) {
 	k := &kept{slot: rn.cur, node: n, raw: raw, hasRaw: hasRaw}
@@ -286,8 +298,9 @@ func (rn *runner) retain(n datamodel.Node, raw []byte, hasRaw bool) {
 		k.nodeWas = lib.LkDump(n)
 	}
 	if hasRaw {
-		k.rawWas = string(raw)
+		k.rawWas = rawPrint(raw)
 	}
+	k.big = len(raw) > 1<<14 || len(k.nodeWas) > 1<<15 || strings.Contains(k.nodeWas, "f5424947")
 	rn.kept = append(rn.kept, k)
 }
 
@@ -298,7 +311,7 @@ func (rn *runner) recheck(all bool) {
 		from = len(rn.kept) - 8
 	}
 	for _, k := range rn.kept[from:] {
-		if k.done {
+		if k.done || (k.big && !all) { // multi-MiB items are re-read once, at the end
 			continue
 		}
 		if k.node != nil {
@@ -311,7 +324,7 @@ func (rn *runner) recheck(all bool) {
 				k.done = true
 			}
 		}
-		if k.hasRaw && string(k.raw) != k.rawWas {
+		if k.hasRaw && rawPrint(k.raw) != k.rawWas {
 			rn.changed = append(rn.changed, fmt.Sprintf("raw@%d>%d", k.slot, rn.cur))
 			k.done = true
 		}
@@ -485,15 +498,13 @@ func (rn *runner) do(o *op) {
 	rn.obs = append(rn.obs, r)
 }
 
-
-
 func (rn *runner) finish() (string, string) {
 	if rn.dead {
 		return strings.Join(append(append([]string{}, rn.obs...), "#", "R:ok"), ";"), rn.tab.Text()
 	}
 	var ents []string
 	for k, b := range rn.w.bag() {
-		ents = append(ents, lib.LkHex(k)+"="+lib.LkHex(string(b)))
+		ents = append(ents, lib.LkHex(k)+"="+lib.LkHexBytes(b))
 	}
 	sort.Strings(ents)
 	rn.cur = len(rn.obs)
@@ -1107,6 +1118,55 @@ func main() {
 			ops = append(ops, &op{kind: 'G', must: true, form: 'l', link: l}, &op{kind: 'G', must: true, form: 'f', link: l})
 		}
 		emit(out, next("z"), "mem", false, rg, ops)
+	}
+	// LARGE blocks: one store-then-load round trip per size (1 / 2 / 4 MiB, each -1 / exact / +1; the
+	// thorough tier adds 8 and 16 MiB for raw) and codec: raw, and dag-cbor holding a bytes node of
+	// that size (modelled through tables: impl 7100).  Byte strings travel under names (lib/link_big.go).
+	bigReg, err := lib.LkParseReg("R:55=55,71=7100")
+	if err != nil {
+		panic(err)
+	}
+	mibs := []int{1, 2, 4}
+	if fl.Tier == "thorough" {
+		mibs = append(mibs, 8, 16)
+	}
+	if os.Getenv("LKBIG") == "0" { // (timing aid: leave the large blocks out)
+		mibs = nil
+	}
+	for _, m := range mibs {
+		for _, d := range []int{-1, 0, 1} {
+			size := m<<20 + d
+			var ops []*op
+			for _, codec := range []uint64{lib.LkRaw, lib.LkDagCbor} {
+				body := size
+				if codec == lib.LkDagCbor {
+					if m > 4 {
+						continue // beyond the dag-cbor decoder's default allocation budget
+					}
+					body = size - 5 // so that the BLOCK has the size
+				}
+				p := lib.LkProto{Version: 1, Codec: codec, MhType: 0x12, MhLen: -1}
+				v := lib.Bytes(lib.LkRun(byte(0xA0+m), body))
+				ops = append(ops, &op{kind: 'C', proto: p, holder: "big", val: v}, &op{kind: 'S', proto: p, holder: "big", val: v})
+			}
+			var learn []*op
+			for _, o := range ops {
+				if o.kind == 'C' {
+					learn = append(learn, o)
+				}
+			}
+			_, _, ls := runHistory("mem", false, bigReg, learn)
+			fs := "lfpr"
+			if d != 0 && fl.Tier != "thorough" {
+				fs = "lr"
+			}
+			for _, l := range uniq(ls) {
+				for _, f := range fs {
+					ops = append(ops, &op{kind: 'G', form: byte(f), link: l})
+				}
+			}
+			emit(out, next("big"), "mem", false, bigReg, ops)
+		}
 	}
 	// raw blocks of descending and ascending sizes loaded in a row through each load function; what
 	// every load returned is retained and read again at the end
